@@ -30,3 +30,788 @@ Fixpoint keys_distinct (h : hdrs) : bool :=
 (* G: what Request.send may be given so that Request.parse returns it; the body is ARBITRARY *)
 Definition Gb (m u : list Z) (hs : hdrs) : bool :=
   method_ok m && uri_ok u && forallb hdr_ok hs && keys_distinct hs.
+
+(* ------------------------------------------------------------------ basic facts *)
+Lemma beq_refl : forall a, beq a a = true.
+Proof. induction a as [|x a IH]; cbn; [reflexivity|]. now rewrite Z.eqb_refl, IH. Qed.
+
+Lemma beq_true_iff : forall a b, beq a b = true <-> a = b.
+Proof.
+  induction a as [|x a IH]; intros [|y b]; cbn; split; intro Hab; try easy.
+  - apply andb_true_iff in Hab as [Hx Ht]. apply Z.eqb_eq in Hx. apply IH in Ht. now subst.
+  - inversion Hab; subst. now rewrite Z.eqb_refl, beq_refl.
+Qed.
+
+Lemma beq_false_iff : forall a b, beq a b = false <-> a <> b.
+Proof.
+  intros a b. destruct (beq a b) eqn:Hb.
+  - apply beq_true_iff in Hb. split; [discriminate|congruence].
+  - split; [|reflexivity]. intros _ Heq. apply beq_true_iff in Heq. congruence.
+Qed.
+
+Lemma has_prefix_spec : forall d s, has_prefix d s = true <-> exists r, s = d ++ r.
+Proof.
+  induction d as [|x d IH]; intros s; cbn.
+  - split; [intros _; now exists s | reflexivity].
+  - destruct s as [|y s].
+    + split; [discriminate | intros [r Hr]; discriminate].
+    + rewrite andb_true_iff, Z.eqb_eq, IH. split.
+      * intros [-> [r ->]]. now exists r.
+      * intros [r Hr]. inversion Hr; subst. split; [reflexivity | now exists r].
+Qed.
+
+Lemma has_prefix_app : forall d r, has_prefix d (d ++ r) = true.
+Proof. intros. apply has_prefix_spec. now exists r. Qed.
+
+(* ------------------------------------------------------------------ strings.Index *)
+(* [index] returns the FIRST occurrence: d starts at i, and at no earlier position *)
+Lemma index_some : forall d s i, index d s = Some i ->
+  has_prefix d (skipn i s) = true /\ (i <= length s)%nat
+  /\ forall j, (j < i)%nat -> has_prefix d (skipn j s) = false.
+Proof.
+  intros d s. induction s as [|c s IH]; intros i Hi; cbn [index] in Hi.
+  - destruct (has_prefix d []) eqn:Hp; [|discriminate]. inversion Hi; subst. cbn. repeat split; [exact Hp|lia|intros j Hj; lia].
+  - destruct (has_prefix d (c :: s)) eqn:Hp.
+    + inversion Hi; subst. cbn [skipn]. repeat split; [exact Hp|lia|intros j Hj; lia].
+    + destruct (index d s) as [i'|] eqn:Hs; cbn in Hi; [|discriminate]. inversion Hi; subst.
+      destruct (IH i' eq_refl) as (Ha & Hb & Hc). cbn [skipn length]. repeat split; [exact Ha|lia|].
+      intros [|j] Hj; cbn [skipn]; [exact Hp|]. apply Hc. lia.
+Qed.
+
+Lemma index_none : forall d s, index d s = None ->
+  forall j, has_prefix d (skipn j s) = false.
+Proof.
+  intros d s. induction s as [|c s IH]; intros Hn j; cbn [index] in Hn.
+  - destruct (has_prefix d []) eqn:Hp; [discriminate|]. now destruct j.
+  - destruct (has_prefix d (c :: s)) eqn:Hp; [discriminate|].
+    destruct (index d s) eqn:Hs; cbn in Hn; [discriminate|].
+    destruct j as [|j]; cbn [skipn]; [exact Hp|]. now apply IH.
+Qed.
+
+Lemma skipn_add : forall {A} i n (s : list A), skipn (i + n) s = skipn n (skipn i s).
+Proof.
+  induction i as [|i IH]; intros n s; [reflexivity|].
+  destruct s as [|c s]; cbn [Nat.add skipn]; [now destruct n | apply IH].
+Qed.
+
+Lemma index_split : forall d s i, index d s = Some i ->
+  s = firstn i s ++ d ++ skipn (i + length d) s.
+Proof.
+  intros d s i Hi. destruct (index_some _ _ _ Hi) as (Hp & _ & _).
+  apply has_prefix_spec in Hp as [r Hr].
+  rewrite <- (firstn_skipn i s) at 1. f_equal.
+  rewrite skipn_add, Hr. now rewrite skipn_app, skipn_all, Nat.sub_diag.
+Qed.
+
+Lemma contains_spec : forall d s, contains d s = true <-> exists l r, s = l ++ d ++ r.
+Proof.
+  intros d s. unfold contains. split.
+  - destruct (index d s) as [i|] eqn:Hi; [|discriminate]. intros _.
+    exists (firstn i s), (skipn (i + length d) s). now apply index_split.
+  - intros (l & r & ->). destruct (index d (l ++ d ++ r)) eqn:Hi; [reflexivity|].
+    pose proof (index_none _ _ Hi (length l)) as Hn.
+    rewrite skipn_app, skipn_all, Nat.sub_diag in Hn. cbn in Hn. now rewrite has_prefix_app in Hn.
+Qed.
+
+Lemma contains_false_tail : forall d c s, contains d (c :: s) = false -> contains d s = false.
+Proof.
+  unfold contains. intros d c s. cbn [index]. destruct (has_prefix d (c :: s)); [discriminate|].
+  now destruct (index d s).
+Qed.
+
+(* one-byte delimiter: the first occurrence after a prefix that does not contain it *)
+Lemma index_app1 : forall a k r, contains [a] k = false -> index [a] (k ++ a :: r) = Some (length k).
+Proof.
+  intros a k r. induction k as [|c k IH]; intros Hk.
+  - cbn. now rewrite Z.eqb_refl.
+  - pose proof (contains_false_tail _ _ _ Hk) as Hk'.
+    unfold contains in Hk. cbn [index] in Hk. cbn [app index length].
+    destruct (has_prefix [a] (c :: k)) eqn:Hp; [discriminate|].
+    cbn in Hp. cbn [has_prefix]. rewrite andb_true_r in Hp. rewrite Hp. cbn.
+    now rewrite (IH Hk').
+Qed.
+
+(* two-byte delimiter of two different bytes (": " and "\r\n"): no occurrence can straddle *)
+Lemma index_app2 : forall a b k r, a <> b -> contains [a; b] k = false ->
+  index [a; b] (k ++ a :: b :: r) = Some (length k).
+Proof.
+  intros a b k r Hab. induction k as [|c k IH]; intros Hk.
+  - cbn. now rewrite !Z.eqb_refl.
+  - pose proof (contains_false_tail _ _ _ Hk) as Hk'.
+    unfold contains in Hk. cbn [index] in Hk.
+    destruct (has_prefix [a; b] (c :: k)) eqn:Hp; [discriminate|].
+    cbn [app index length].
+    assert (Hp' : has_prefix [a; b] (c :: k ++ a :: b :: r) = false).
+    { destruct k as [|c2 k]; cbn in *.
+      - destruct (a =? c) eqn:Hac; [|reflexivity]. cbn. apply Z.eqb_eq in Hac. subst.
+        rewrite andb_true_r. apply Z.eqb_neq. congruence.
+      - rewrite andb_true_r in Hp. now rewrite andb_true_r. }
+    rewrite Hp'. now rewrite (IH Hk').
+Qed.
+
+Lemma match_until_app1 : forall a k r, contains [a] k = false ->
+  match_until (k ++ a :: r) [a] = (k, r).
+Proof.
+  intros a k r Hk. unfold match_until. rewrite (index_app1 _ _ _ Hk).
+  rewrite firstn_app, firstn_all, Nat.sub_diag. cbn [firstn]. rewrite app_nil_r.
+  rewrite skipn_app. rewrite skipn_all2 by (cbn; lia).
+  replace (length k + length [a] - length k)%nat with 1%nat by (cbn; lia). reflexivity.
+Qed.
+
+Lemma match_until_app2 : forall a b k r, a <> b -> contains [a; b] k = false ->
+  match_until (k ++ a :: b :: r) [a; b] = (k, r).
+Proof.
+  intros a b k r Hab Hk. unfold match_until. rewrite (index_app2 _ _ _ r Hab Hk).
+  rewrite firstn_app, firstn_all, Nat.sub_diag. cbn [firstn]. rewrite app_nil_r.
+  rewrite skipn_app. rewrite skipn_all2 by (cbn; lia).
+  replace (length k + length [a; b] - length k)%nat with 2%nat by (cbn; lia). reflexivity.
+Qed.
+
+(* no delimiter: ("", "") *)
+Lemma match_until_none : forall d s, contains d s = false -> match_until s d = ([], []).
+Proof. unfold contains, match_until. intros d s. now destruct (index d s). Qed.
+
+(* ------------------------------------------------------------------ header map *)
+Lemma beq_sym : forall a b, beq a b = beq b a.
+Proof.
+  intros a b. destruct (beq a b) eqn:H1; destruct (beq b a) eqn:H2; try reflexivity.
+  - apply beq_true_iff in H1. subst. now rewrite beq_refl in H2.
+  - apply beq_true_iff in H2. subst. now rewrite beq_refl in H1.
+Qed.
+
+Lemma hadd_fresh : forall k v h, hlookup k h = None -> hadd k v h = h ++ [(k, v)].
+Proof.
+  intros k v h. induction h as [|[k' v'] h IH]; cbn; intros Hl; [reflexivity|].
+  destruct (beq k k'); [discriminate|]. now rewrite IH.
+Qed.
+
+Lemma keys_distinct_app_fresh : forall h k v t,
+  keys_distinct (h ++ (k, v) :: t) = true -> hlookup k h = None.
+Proof.
+  induction h as [|[k' v'] h IH]; intros k v t Hd; cbn in *; [reflexivity|].
+  apply andb_true_iff in Hd as [Hn Hd]. apply negb_true_iff in Hn.
+  rewrite existsb_app in Hn. apply orb_false_iff in Hn as [_ Hn]. cbn in Hn.
+  apply orb_false_iff in Hn as [Hn _]. rewrite beq_sym, Hn. now apply IH with v t.
+Qed.
+
+Lemma set_headers_distinct_gen : forall hs h,
+  keys_distinct (h ++ hs) = true -> set_headers hs h = h ++ hs.
+Proof.
+  unfold set_headers. induction hs as [|[k v] hs IH]; intros h Hd; cbn [fold_left fst snd].
+  - now rewrite app_nil_r.
+  - rewrite (hadd_fresh k v h) by now apply keys_distinct_app_fresh with v hs.
+    rewrite IH; rewrite <- app_assoc; [reflexivity | exact Hd].
+Qed.
+
+(* a map with distinct keys filled into an empty map is itself *)
+Lemma set_headers_distinct : forall hs, keys_distinct hs = true -> set_headers hs [] = hs.
+Proof. intros hs Hd. now apply (set_headers_distinct_gen hs []). Qed.
+
+(* ------------------------------------------------------------------ the header loop *)
+Lemma key_ok_nonempty : forall k, key_ok k = true -> isnil k = false.
+Proof. unfold key_ok. intros [|c k]; cbn; [discriminate|reflexivity]. Qed.
+Lemma val_ok_nonempty : forall v, val_ok v = true -> isnil v = false.
+Proof. unfold val_ok. intros [|c v]; cbn; [discriminate|reflexivity]. Qed.
+Lemma key_ok_colsp : forall k, key_ok k = true -> contains COLSP k = false.
+Proof.
+  unfold key_ok. intros k Hk. apply andb_true_iff in Hk as [Hk _].
+  apply andb_true_iff in Hk as [_ Hk]. now apply negb_true_iff in Hk.
+Qed.
+Lemma val_ok_crlf : forall v, val_ok v = true -> contains CRLF v = false.
+Proof.
+  unfold val_ok. intros v Hv. apply andb_true_iff in Hv as [_ Hv]. now apply negb_true_iff in Hv.
+Qed.
+Lemma key_ok_not_blank : forall k x, key_ok k = true -> has_prefix CRLF (k ++ COLSP ++ x) = false.
+Proof.
+  unfold key_ok. intros k x Hk. apply andb_true_iff in Hk as [Hk Hp]. apply negb_true_iff in Hp.
+  destruct k as [|c1 [|c2 k]]; cbn in *; [discriminate | now rewrite andb_false_r | exact Hp].
+Qed.
+
+Lemma app_isnil : forall (a b : list Z), isnil a = false -> isnil (a ++ b) = false.
+Proof. now intros [|x a] b. Qed.
+
+Lemma header_line_step : forall f k v rest h, key_ok k = true -> val_ok v = true ->
+  header_loop (S f) (header_line (k, v) ++ rest) h = header_loop f rest (hadd k v h).
+Proof.
+  intros f k v rest h Hk Hv. unfold header_line. cbn [fst snd].
+  rewrite <- !app_assoc. cbn [header_loop].
+  rewrite (app_isnil _ _ (key_ok_nonempty _ Hk)).
+  rewrite (key_ok_not_blank k _ Hk).
+  change (k ++ COLSP ++ v ++ CRLF ++ rest) with (k ++ 58 :: 32 :: (v ++ CRLF ++ rest)).
+  unfold COLSP at 1. rewrite (match_until_app2 58 32 k _ ltac:(lia) (key_ok_colsp _ Hk)).
+  cbv beta iota. rewrite (key_ok_nonempty _ Hk).
+  change (v ++ CRLF ++ rest) with (v ++ 13 :: 10 :: rest).
+  unfold CRLF at 1. rewrite (match_until_app2 13 10 v _ ltac:(lia) (val_ok_crlf _ Hv)).
+  cbv beta iota. rewrite (val_ok_nonempty _ Hv). reflexivity.
+Qed.
+
+Lemma header_loop_block : forall hs f h b, forallb hdr_ok hs = true -> (length hs < f)%nat ->
+  header_loop f (header_block hs ++ CRLF ++ b) h = (set_headers hs h, b).
+Proof.
+  induction hs as [|[k v] hs IH]; intros f h b Hok Hf.
+  - destruct f as [|f]; [lia|]. reflexivity.
+  - destruct f as [|f]; [cbn in Hf; lia|].
+    cbn [forallb] in Hok. apply andb_true_iff in Hok as [Hkv Hok].
+    unfold hdr_ok in Hkv. cbn [fst snd] in Hkv. apply andb_true_iff in Hkv as [Hk Hv].
+    unfold header_block. cbn [flat_map]. rewrite <- app_assoc.
+    rewrite (header_line_step f k v _ h Hk Hv).
+    fold (header_block hs). rewrite IH; [reflexivity | exact Hok | cbn in Hf; lia].
+Qed.
+
+Lemma header_block_length : forall hs, (length hs <= length (header_block hs))%nat.
+Proof.
+  induction hs as [|[k v] hs IH]; [cbn; lia|].
+  unfold header_block in *. cbn [flat_map length]. rewrite app_length.
+  assert (Hl : (1 <= length (header_line (k, v)))%nat).
+  { unfold header_line, COLSP. cbn [fst snd]. rewrite !app_length. cbn [length]. lia. }
+  lia.
+Qed.
+
+(* the loop of the tree before the fix: same on header lines ... *)
+Lemma header_line_step_old : forall f k v rest h, key_ok k = true -> val_ok v = true ->
+  header_loop_old (S f) (header_line (k, v) ++ rest) h = header_loop_old f rest (hadd k v h).
+Proof.
+  intros f k v rest h Hk Hv. unfold header_line. cbn [fst snd].
+  rewrite <- !app_assoc. cbn [header_loop_old].
+  rewrite (app_isnil _ _ (key_ok_nonempty _ Hk)).
+  change (k ++ COLSP ++ v ++ CRLF ++ rest) with (k ++ 58 :: 32 :: (v ++ CRLF ++ rest)).
+  unfold COLSP at 1. rewrite (match_until_app2 58 32 k _ ltac:(lia) (key_ok_colsp _ Hk)).
+  cbv beta iota. rewrite (key_ok_nonempty _ Hk).
+  change (v ++ CRLF ++ rest) with (v ++ 13 :: 10 :: rest).
+  unfold CRLF at 1. rewrite (match_until_app2 13 10 v _ ltac:(lia) (val_ok_crlf _ Hv)).
+  cbv beta iota. rewrite (val_ok_nonempty _ Hv). reflexivity.
+Qed.
+
+Lemma contains_colsp_crlf : forall b, contains COLSP b = false -> contains COLSP (CRLF ++ b) = false.
+Proof. unfold contains. intros b Hb. cbn. now destruct (index COLSP b). Qed.
+
+(* ... but it hands the blank line to the body (when the body has no ": "; otherwise it goes
+   on parsing "headers" inside the body) *)
+Lemma header_loop_old_block : forall hs f h b, forallb hdr_ok hs = true -> (length hs < f)%nat ->
+  contains COLSP b = false ->
+  header_loop_old f (header_block hs ++ CRLF ++ b) h = (set_headers hs h, CRLF ++ b).
+Proof.
+  induction hs as [|[k v] hs IH]; intros f h b Hok Hf Hb.
+  - destruct f as [|f]; [lia|]. cbn [header_block flat_map app header_loop_old].
+    change (isnil (CRLF ++ b)) with false. cbv iota.
+    rewrite (match_until_none COLSP (CRLF ++ b)) by now apply contains_colsp_crlf.
+    cbv beta iota. cbn [isnil].
+    change (match_until (CRLF ++ b) CRLF) with (([] : list Z), b).
+    reflexivity.
+  - destruct f as [|f]; [cbn in Hf; lia|].
+    cbn [forallb] in Hok. apply andb_true_iff in Hok as [Hkv Hok].
+    unfold hdr_ok in Hkv. cbn [fst snd] in Hkv. apply andb_true_iff in Hkv as [Hk Hv].
+    unfold header_block. cbn [flat_map]. rewrite <- app_assoc.
+    rewrite (header_line_step_old f k v _ h Hk Hv).
+    fold (header_block hs). rewrite IH; [reflexivity | exact Hok | cbn in Hf; lia | exact Hb].
+Qed.
+
+(* ------------------------------------------------------------------ parse (send r) *)
+Definition HTTP11 : list Z := s2b "HTTP/1.1".
+
+Lemma uri_ok_nonempty : forall u, uri_ok u = true -> isnil u = false.
+Proof. unfold uri_ok. intros [|c u]; cbn; [discriminate|reflexivity]. Qed.
+Lemma uri_ok_sp : forall u, uri_ok u = true -> contains SP u = false.
+Proof. unfold uri_ok. intros u Hu. apply andb_true_iff in Hu as [_ Hu]. now apply negb_true_iff in Hu. Qed.
+
+(* the request line and the version, for any header loop *)
+Lemma parse_with_request_line : forall loop m u rest st0,
+  isnil m = false -> contains SP m = false -> uri_ok u = true ->
+  parse_with loop new_request st0 (m ++ SP ++ u ++ SP ++ HTTP11 ++ CRLF ++ rest) =
+  (let meth := get_method m in
+   let st1 := if meth =? HTTP_METHOD_NOT_SUPPORTED then set_status st0 501
+              else if meth =? HTTP_METHOD_UNKNOWN then 400 else st0 in
+   let '(hs, b) := loop (S (length rest)) rest [] in
+   (mkReq m meth u HTTP11 HTTP_VERSION_11 hs b, st1)).
+Proof.
+  intros loop m u rest st0 Hm Hsp Hu. unfold parse_with.
+  change (m ++ SP ++ u ++ SP ++ HTTP11 ++ CRLF ++ rest)
+    with (m ++ 32 :: (u ++ 32 :: (HTTP11 ++ 13 :: 10 :: rest))).
+  unfold SP. rewrite (match_until_app1 32 m _ Hsp). cbv beta iota. rewrite Hm.
+  rewrite (match_until_app1 32 u _ (uri_ok_sp _ Hu)). cbv beta iota.
+  rewrite (uri_ok_nonempty _ Hu).
+  change (version new_request =? HTTP_VERSION_09) with false. cbv iota.
+  unfold CRLF.
+  rewrite (match_until_app2 13 10 HTTP11 rest ltac:(lia) eq_refl). cbv beta iota.
+  change (isnil HTTP11) with false. cbv iota.
+  change (eqfold HTTP11 (s2b "HTTP/1.0")) with false.
+  change (eqfold HTTP11 (s2b "HTTP/1.1")) with true. cbv iota beta.
+  reflexivity.
+Qed.
+
+Lemma method_ok_cases : forall m, method_ok m = true ->
+  m = s2b "GET" \/ m = s2b "HEAD" \/ m = s2b "POST" \/ m = s2b "PUT".
+Proof.
+  unfold method_ok. intros m Hm. repeat (apply orb_true_iff in Hm as [Hm|Hm]);
+    apply beq_true_iff in Hm; auto.
+Qed.
+
+Lemma method_ok_facts : forall m, method_ok m = true ->
+  isnil m = false /\ contains SP m = false
+  /\ (get_method m = HTTP_METHOD_GET \/ get_method m = HTTP_METHOD_HEAD
+      \/ get_method m = HTTP_METHOD_NOT_SUPPORTED).
+Proof.
+  intros m Hm. destruct (method_ok_cases m Hm) as [-> | [-> | [-> | ->]]];
+    (split; [reflexivity | split; [reflexivity | vm_compute; tauto]]).
+Qed.
+
+Lemma send_shape : forall m u hs b, isnil m = false ->
+  send m u hs b = m ++ SP ++ u ++ SP ++ HTTP11 ++ CRLF ++ (header_block hs ++ CRLF ++ b).
+Proof. intros m u hs b Hm. unfold send. rewrite Hm. reflexivity. Qed.
+
+(* MAIN HTTP LEMMA.  For every request in G, in whatever order the Go map iteration emitted the
+   headers, the server-side parser on a fresh connection (status 200) returns exactly the method,
+   uri, version, the header list and the body -- the body is arbitrary.  The status stays 200:
+   for POST/PUT the parser calls set_status_code(501), which is a no-op on status 200. *)
+Lemma parse_send : forall m u hs b, Gb m u hs = true ->
+  parse 200 (send m u hs b) = (mkReq m (get_method m) u HTTP11 HTTP_VERSION_11 hs b, 200).
+Proof.
+  intros m u hs b HG. unfold Gb in HG.
+  apply andb_true_iff in HG as [HG Hd]. apply andb_true_iff in HG as [HG Hh].
+  apply andb_true_iff in HG as [Hm Hu].
+  destruct (method_ok_facts m Hm) as (Hn & Hsp & Hmeth).
+  rewrite (send_shape m u hs b Hn). unfold parse.
+  rewrite (parse_with_request_line header_loop m u _ 200 Hn Hsp Hu). cbv zeta.
+  rewrite header_loop_block; [| exact Hh |].
+  - rewrite (set_headers_distinct hs Hd). f_equal.
+    destruct Hmeth as [-> | [-> | ->]]; reflexivity.
+  - rewrite app_length. pose proof (header_block_length hs). lia.
+Qed.
+
+(* method "" is sent as GET *)
+Lemma parse_send_default_method : forall u hs b, Gb (s2b "GET") u hs = true ->
+  parse 200 (send [] u hs b) = (mkReq (s2b "GET") HTTP_METHOD_GET u HTTP11 HTTP_VERSION_11 hs b, 200).
+Proof. intros u hs b HG. change (send [] u hs b) with (send (s2b "GET") u hs b). now rewrite parse_send. Qed.
+
+(* ---- the header SET: any iteration order gives the same map ---- *)
+Lemma keys_distinct_NoDup : forall h, keys_distinct h = true <-> NoDup (map fst h).
+Proof.
+  induction h as [|[k v] h IH]; cbn; [split; [constructor|reflexivity]|].
+  rewrite andb_true_iff, negb_true_iff, IH. split.
+  - intros [Hn Hd]. constructor; [|exact Hd]. intros Hin. apply in_map_iff in Hin as [[k' v'] [Hk Hin]].
+    cbn in Hk. subst. assert (Ht : existsb (fun kv => beq k (fst kv)) h = true).
+    { apply existsb_exists. exists (k, v'). split; [exact Hin | apply beq_refl]. }
+    congruence.
+  - intros Hnd. inversion Hnd as [|? ? Hnin Hd]; subst. split; [|exact Hd].
+    destruct (existsb (fun kv => beq k (fst kv)) h) eqn:He; [|reflexivity].
+    apply existsb_exists in He as [[k' v'] [Hin Hb]]. cbn in Hb. apply beq_true_iff in Hb. subst.
+    exfalso. apply Hnin. apply in_map_iff. now exists (k', v').
+Qed.
+
+Lemma hlookup_In : forall h k v, NoDup (map fst h) -> (hlookup k h = Some v <-> In (k, v) h).
+Proof.
+  induction h as [|[k' v'] h IH]; intros k v Hnd; cbn; [split; [discriminate|tauto]|].
+  inversion Hnd as [|? ? Hnin Hd]; subst. destruct (beq k k') eqn:Hb.
+  - apply beq_true_iff in Hb. subst. split.
+    + intros Hs. inversion Hs. now left.
+    + intros [He|Hin]; [now inversion He|]. exfalso. apply Hnin. apply in_map_iff. now exists (k', v).
+  - apply beq_false_iff in Hb. rewrite (IH k v Hd). split; [tauto|].
+    intros [He|Hin]; [inversion He; congruence | exact Hin].
+Qed.
+
+Lemma hlookup_perm : forall h h' k, NoDup (map fst h) -> Permutation h h' -> hlookup k h' = hlookup k h.
+Proof.
+  intros h h' k Hnd Hp.
+  assert (Hnd' : NoDup (map fst h')) by (eapply Permutation_NoDup; [apply Permutation_map; exact Hp | exact Hnd]).
+  destruct (hlookup k h) as [v|] eqn:Hl.
+  - apply (hlookup_In h' k v Hnd'). eapply Permutation_in; [exact Hp|]. now apply (hlookup_In h k v Hnd).
+  - destruct (hlookup k h') as [v'|] eqn:Hl'; [|reflexivity].
+    apply (hlookup_In h' k v' Hnd') in Hl'. apply Permutation_sym in Hp.
+    apply (Permutation_in _ Hp) in Hl'. apply (hlookup_In h k v' Hnd) in Hl'. congruence.
+Qed.
+
+Lemma Gb_perm : forall m u hs hs', Permutation hs hs' -> Gb m u hs = true -> Gb m u hs' = true.
+Proof.
+  unfold Gb. intros m u hs hs' Hp HG.
+  apply andb_true_iff in HG as [HG Hd]. apply andb_true_iff in HG as [HG Hh]. rewrite HG. cbn [andb].
+  apply andb_true_iff. split.
+  - apply forallb_forall. intros x Hx. rewrite forallb_forall in Hh. apply Hh.
+    eapply Permutation_in; [apply Permutation_sym; exact Hp | exact Hx].
+  - apply keys_distinct_NoDup. apply keys_distinct_NoDup in Hd.
+    eapply Permutation_NoDup; [apply Permutation_map; exact Hp | exact Hd].
+Qed.
+
+(* the round trip, stated for the header MAP: whatever order [hs'] the sender's range loop used *)
+Lemma http_request_roundtrip_map : forall m u hs b hs', Gb m u hs = true -> Permutation hs hs' ->
+  let '(r, st) := parse 200 (send m u hs' b) in
+  method_raw r = m /\ method r = get_method m /\ uri r = u /\ version r = HTTP_VERSION_11
+  /\ body r = b /\ st = 200
+  /\ (forall k, hlookup k (headers r) = hlookup k hs) /\ Permutation hs (headers r).
+Proof.
+  intros m u hs b hs' HG Hp. rewrite (parse_send m u hs' b (Gb_perm _ _ _ _ Hp HG)).
+  cbn [method_raw method uri version body headers]. repeat split; try reflexivity; [|exact Hp].
+  intros k. apply hlookup_perm; [|exact Hp].
+  apply keys_distinct_NoDup. unfold Gb in HG. now apply andb_true_iff in HG as [_ HG].
+Qed.
+
+(* ---- the grammar boundary is tight: each clause of G, dropped, breaks the round trip ---- *)
+Definition rt_fails (m u : list Z) (hs : hdrs) (b : list Z) : Prop :=
+  fst (parse 200 (send m u hs b)) <> mkReq m (get_method m) u HTTP11 HTTP_VERSION_11 hs b.
+
+(* key starting with CRLF: taken for the blank line *)
+Lemma grammar_key_crlf_refuted :
+  rt_fails (s2b "GET") (s2b "/x") [(CRLF ++ s2b "K", s2b "v")] (s2b "hello").
+Proof. vm_compute. discriminate. Qed.
+(* key containing ": ": split too early *)
+Lemma grammar_key_colsp_refuted :
+  rt_fails (s2b "GET") (s2b "/x") [(s2b "K: L", s2b "v")] (s2b "hello").
+Proof. vm_compute. discriminate. Qed.
+(* empty value *)
+Lemma grammar_value_empty_refuted :
+  rt_fails (s2b "GET") (s2b "/x") [(s2b "K", []); (s2b "L", s2b "w")] (s2b "hello").
+Proof. vm_compute. discriminate. Qed.
+(* CRLF inside a value *)
+Lemma grammar_value_crlf_refuted :
+  rt_fails (s2b "GET") (s2b "/x") [(s2b "K", s2b "v" ++ CRLF ++ s2b "w")] (s2b "hello").
+Proof. vm_compute. discriminate. Qed.
+(* space in the uri *)
+Lemma grammar_uri_space_refuted :
+  rt_fails (s2b "GET") (s2b "/x y") [] (s2b "hello").
+Proof. vm_compute. discriminate. Qed.
+(* empty key *)
+Lemma grammar_key_empty_refuted :
+  rt_fails (s2b "GET") (s2b "/x") [([], s2b "v")] (s2b "hello").
+Proof. vm_compute. discriminate. Qed.
+(* an unsupported method makes the parser set 400 (and the server answer with the error page) *)
+Lemma grammar_method_refuted : snd (parse 200 (send (s2b "DELETE") (s2b "/x") [] [])) = 400.
+Proof. reflexivity. Qed.
+
+(* non-vacuity: a request in G with awkward but legal content -- CR, LF, ':' in keys and values,
+   CRLF in the uri, a body full of delimiters *)
+Example G_example :
+  let hs := [(s2b "a:", [120; 13]); ([13], [10]); ([10; 13], COLSP); (s2b "Host", s2b "10.0.0.1:80")] in
+  let b := CRLF ++ s2b "hello" ++ CRLF ++ CRLF ++ s2b "K: v" ++ CRLF in
+  Gb (s2b "POST") (s2b "/x" ++ CRLF ++ s2b "y") hs = true
+  /\ parse 200 (send (s2b "POST") (s2b "/x" ++ CRLF ++ s2b "y") hs b)
+     = (mkReq (s2b "POST") HTTP_METHOD_NOT_SUPPORTED (s2b "/x" ++ CRLF ++ s2b "y") HTTP11 HTTP_VERSION_11 hs b, 200).
+Proof. split; reflexivity. Qed.
+
+(* ---- the loop before the fix: the body came back with the blank line in front ---- *)
+Lemma parse_old_send : forall m u hs b, Gb m u hs = true -> contains COLSP b = false ->
+  parse_old 200 (send m u hs b) = (mkReq m (get_method m) u HTTP11 HTTP_VERSION_11 hs (CRLF ++ b), 200).
+Proof.
+  intros m u hs b HG Hb. unfold Gb in HG.
+  apply andb_true_iff in HG as [HG Hd]. apply andb_true_iff in HG as [HG Hh].
+  apply andb_true_iff in HG as [Hm Hu].
+  destruct (method_ok_facts m Hm) as (Hn & Hsp & Hmeth).
+  rewrite (send_shape m u hs b Hn). unfold parse_old.
+  rewrite (parse_with_request_line header_loop_old m u _ 200 Hn Hsp Hu). cbv zeta.
+  rewrite header_loop_old_block; [| exact Hh | | exact Hb].
+  - rewrite (set_headers_distinct hs Hd). f_equal.
+    destruct Hmeth as [-> | [-> | ->]]; reflexivity.
+  - rewrite app_length. pose proof (header_block_length hs). lia.
+Qed.
+
+(* finding F8 (fixed in /repo by "fix: HTTP parser hands the header-terminating blank line to
+   the body"): with the old loop the handler saw "\r\nhello" for the body "hello" *)
+Lemma http_body_crlf_old_refuted :
+  exists m u hs b, Gb m u hs = true /\ body (fst (parse_old 200 (send m u hs b))) <> b
+                   /\ body (fst (parse_old 200 (send m u hs b))) = CRLF ++ b
+                   /\ body (fst (parse 200 (send m u hs b))) = b.
+Proof.
+  exists (s2b "POST"), (s2b "/x"), [(s2b "Host", s2b "10.0.0.1:8080")], (s2b "hello").
+  repeat split; vm_compute; try reflexivity; discriminate.
+Qed.
+
+(* ------------------------------------------------------------------ dispatch *)
+Lemma set_status_nonzero : forall st c, st <> 0 -> set_status st c = st.
+Proof. unfold set_status. intros st c Hst. apply Z.eqb_neq in Hst. now rewrite Hst. Qed.
+
+Lemma set_status_fold_nonzero : forall errs st, st <> 0 -> fold_left set_status errs st = st.
+Proof.
+  induction errs as [|c errs IH]; intros st Hst; cbn; [reflexivity|].
+  rewrite (set_status_nonzero st c Hst). now apply IH.
+Qed.
+
+(* a route table built by successful HandleFunc calls only *)
+Inductive built {A} : mux A -> Prop :=
+| built_nil : built []
+| built_add : forall m pat h m', built m -> handle_func m pat h = Some m' -> built m'.
+
+Lemma mlookup_app : forall {A} k (m1 m2 : mux A),
+  mlookup k (m1 ++ m2) = match mlookup k m1 with Some a => Some a | None => mlookup k m2 end.
+Proof.
+  intros A k m1 m2. induction m1 as [|[k' a] m1 IH]; cbn; [reflexivity|].
+  now destruct (beq k k').
+Qed.
+
+Lemma handle_func_spec : forall {A} (m m' : mux A) pat h, handle_func m pat h = Some m' ->
+  pat <> [] /\ mlookup pat m = None /\ m' = m ++ [(pat, h)].
+Proof.
+  unfold handle_func. intros A m m' pat h Hh. destruct pat as [|c pat]; [discriminate|]. cbn in Hh.
+  destruct (mlookup (c :: pat) m); [discriminate|]. inversion Hh. repeat split. discriminate.
+Qed.
+
+(* in a built table a pattern has at most one entry, and lookup finds exactly the entries *)
+Lemma built_lookup : forall {A} (m : mux A), built m ->
+  forall k a, mlookup k m = Some a <-> In (k, a) m.
+Proof.
+  intros A m Hb. induction Hb as [|m pat h m' Hb IH Hh]; intros k a; cbn; [split; [discriminate|tauto]|].
+  apply handle_func_spec in Hh as (_ & Hfresh & ->).
+  rewrite mlookup_app, in_app_iff. cbn. destruct (mlookup k m) as [a'|] eqn:Hl.
+  - rewrite <- (IH k a), Hl. split; [intros Hs; now left|].
+    intros [Hs|[He|[]]]; [exact Hs|]. inversion He; subst. congruence.
+  - destruct (beq k pat) eqn:Hbq.
+    + apply beq_true_iff in Hbq. subst. split.
+      * intros Hs. inversion Hs. right. now left.
+      * intros [Hin|[He|[]]]; [apply IH in Hin; congruence | now inversion He].
+    + apply beq_false_iff in Hbq. split; [discriminate|].
+      intros [Hin|[He|[]]]; [apply IH in Hin; congruence | inversion He; congruence].
+Qed.
+
+(* dispatch is on EXACT equality of the uri with a registered pattern (not on prefixes): the
+   entry invoked is the one registered for exactly [uri r]; with no such entry no handler runs
+   (and, the status being 200 already, set_status_code(400) changes nothing). *)
+Lemma dispatch_exact : forall {A} (run : A -> request -> hresult) (m : mux A) r st, built m ->
+  (forall a, In (uri r, a) m ->
+     dispatch run m r st = (Some a, h_body (run a r), fold_left set_status (h_errors (run a r)) st))
+  /\ ((forall a, ~ In (uri r, a) m) -> dispatch run m r st = (None, [], set_status st 400))
+  /\ (forall a eb st', dispatch run m r st = (Some a, eb, st') -> In (uri r, a) m).
+Proof.
+  intros A run m r st Hb. pose proof (built_lookup m Hb (uri r)) as Hl. unfold dispatch. repeat split.
+  - intros a Hin. apply Hl in Hin. now rewrite Hin.
+  - intros Hnone. destruct (mlookup (uri r) m) as [a|] eqn:Hm; [|reflexivity].
+    exfalso. apply (Hnone a). now apply Hl.
+  - intros a eb st' Hd. destruct (mlookup (uri r) m) as [a'|] eqn:Hm; [|discriminate].
+    inversion Hd; subst. now apply Hl.
+Qed.
+
+(* prefixes and extensions of a registered pattern are NOT served by it *)
+Example dispatch_prefix_not_served :
+  let m := [(s2b "/", 0%nat); (s2b "/xy", 1%nat)] in
+  fst (fst (dispatch (fun _ _ => mkHR [] []) m (mkReq [] 0 (s2b "/x") [] 0 [] []) 200)) = None.
+Proof. reflexivity. Qed.
+
+(* ------------------------------------------------------------------ response *)
+Definition is_digit (c : Z) : Prop := 48 <= c <= 57.
+(* the number a decimal string denotes (spec side) *)
+Definition dval (s : list Z) : Z := fold_left (fun a c => a * 10 + (c - 48)) s 0.
+
+Lemma digits_digit : forall f n acc, 0 <= n -> Forall is_digit acc -> Forall is_digit (digits f n acc).
+Proof.
+  induction f as [|f IH]; intros n acc Hn Hacc; cbn [digits]; [exact Hacc|].
+  destruct (n <? 10) eqn:Hlt.
+  - apply Z.ltb_lt in Hlt. constructor; [unfold is_digit; lia | exact Hacc].
+  - apply IH; [apply Z.div_pos; lia|]. constructor; [|exact Hacc].
+    unfold is_digit. pose proof (Z.mod_pos_bound n 10 ltac:(lia)). lia.
+Qed.
+
+Lemma digits_nonempty_acc : forall f n acc, acc <> [] -> digits f n acc <> [].
+Proof.
+  induction f as [|f IH]; intros n acc Hacc; cbn [digits]; [exact Hacc|].
+  destruct (n <? 10); [discriminate | apply IH; discriminate].
+Qed.
+
+Lemma digits_nonempty : forall f n acc, digits (S f) n acc <> [].
+Proof.
+  intros f n acc. cbn [digits]. destruct (n <? 10); [discriminate | apply digits_nonempty_acc; discriminate].
+Qed.
+
+Lemma digits_value : forall f n acc, 0 <= n < 10 ^ Z.of_nat f ->
+  fold_left (fun a c => a * 10 + (c - 48)) (digits f n acc) 0
+  = fold_left (fun a c => a * 10 + (c - 48)) acc n.
+Proof.
+  induction f as [|f IH]; intros n acc Hn; cbn [digits].
+  - cbn in Hn. assert (n = 0) by lia. now subst.
+  - destruct (n <? 10) eqn:Hlt.
+    + cbn [fold_left]. f_equal. lia.
+    + apply Z.ltb_ge in Hlt. rewrite IH.
+      * cbn [fold_left]. f_equal. pose proof (Z.div_mod n 10 ltac:(lia)). lia.
+      * rewrite Nat2Z.inj_succ, Z.pow_succ_r in Hn by lia.
+        split; [apply Z.div_pos; lia | apply Z.div_lt_upper_bound; lia].
+Qed.
+
+Lemma itoa_facts : forall n, 0 <= n < 10 ^ 20 ->
+  Forall is_digit (itoa n) /\ itoa n <> [] /\ dval (itoa n) = n.
+Proof.
+  intros n Hn. unfold itoa. assert (Hl : n <? 0 = false) by (apply Z.ltb_ge; lia). rewrite Hl.
+  repeat split.
+  - apply digits_digit; [lia | constructor].
+  - apply (digits_nonempty 19).
+  - unfold dval. now rewrite (digits_value 20 n []).
+Qed.
+
+Lemma notin_contains1 : forall a l, Forall (fun c => c <> a) l -> contains [a] l = false.
+Proof.
+  unfold contains. intros a l Hl. induction Hl as [|c l Hc Hl IH]; [reflexivity|].
+  cbn [index has_prefix]. apply not_eq_sym in Hc. apply Z.eqb_neq in Hc. rewrite Hc. cbn.
+  now destruct (index [a] l).
+Qed.
+
+Lemma itoa_uri_ok : forall n, 0 <= n < 10 ^ 20 -> uri_ok (itoa n) = true.
+Proof.
+  intros n Hn. destruct (itoa_facts n Hn) as (Hd & Hne & _). unfold uri_ok.
+  apply andb_true_iff. split.
+  - destruct (itoa n); [congruence | reflexivity].
+  - apply negb_true_iff. apply notin_contains1. eapply Forall_impl; [|exact Hd].
+    unfold is_digit. intros c Hc. lia.
+Qed.
+
+(* the reason phrases of define_status.go: non-empty, no CRLF, and none of them reads as an HTTP
+   version; the codes are 100..511 *)
+Definition phrase_ok (s : list Z) : bool :=
+  negb (isnil s) && negb (contains CRLF s) && negb (eqfold s (s2b "HTTP/1.0")) && negb (eqfold s (s2b "HTTP/1.1")).
+
+Lemma zlookup_in : forall c t, zlookup c t <> [] -> In (c, zlookup c t) t.
+Proof.
+  intros c t. induction t as [|[c' s] t IH]; cbn; [congruence|].
+  destruct (c =? c') eqn:Hc; [apply Z.eqb_eq in Hc; subst; now left | intros Hn; right; now apply IH].
+Qed.
+
+Lemma status_text_known : forall st, status_text st <> [] ->
+  100 <= st <= 511 /\ phrase_ok (status_text st) = true.
+Proof.
+  intros st Hst. apply zlookup_in in Hst. fold (status_text st) in Hst.
+  assert (Hall : forallb (fun cs => (100 <=? fst cs) && (fst cs <=? 511) && phrase_ok (snd cs)) status_table = true)
+    by (vm_compute; reflexivity).
+  rewrite forallb_forall in Hall. specialize (Hall _ Hst). cbn [fst snd] in Hall.
+  apply andb_true_iff in Hall as [Hall Hp]. apply andb_true_iff in Hall as [H1 H2].
+  split; [lia | exact Hp].
+Qed.
+
+(* request line with an arbitrary third word *)
+Lemma parse_with_line_gen : forall loop m u v rest st0,
+  isnil m = false -> contains SP m = false -> uri_ok u = true ->
+  isnil v = false -> contains CRLF v = false ->
+  parse_with loop new_request st0 (m ++ SP ++ u ++ SP ++ v ++ CRLF ++ rest) =
+  (let meth := get_method m in
+   let st1 := if meth =? HTTP_METHOD_NOT_SUPPORTED then set_status st0 501
+              else if meth =? HTTP_METHOD_UNKNOWN then 400 else st0 in
+   let '(ver, st3) :=
+     if eqfold v (s2b "HTTP/1.0") then (HTTP_VERSION_10, st1)
+     else if eqfold v (s2b "HTTP/1.1") then (HTTP_VERSION_11, st1)
+     else (HTTP_VERSION_UNKNOWN, set_status st1 400) in
+   let '(hs, b) := loop (S (length rest)) rest [] in
+   (mkReq m meth u v ver hs b, st3)).
+Proof.
+  intros loop m u v rest st0 Hm Hsp Hu Hv Hvc. unfold parse_with.
+  change (m ++ SP ++ u ++ SP ++ v ++ CRLF ++ rest)
+    with (m ++ 32 :: (u ++ 32 :: (v ++ 13 :: 10 :: rest))).
+  unfold SP. rewrite (match_until_app1 32 m _ Hsp). cbv beta iota. rewrite Hm.
+  rewrite (match_until_app1 32 u _ (uri_ok_sp _ Hu)). cbv beta iota.
+  rewrite (uri_ok_nonempty _ Hu).
+  change (version new_request =? HTTP_VERSION_09) with false. cbv iota.
+  unfold CRLF. rewrite (match_until_app2 13 10 v rest ltac:(lia) Hvc). cbv beta iota.
+  rewrite Hv. change (version new_request) with HTTP_VERSION_UNKNOWN.
+  destruct (eqfold v (s2b "HTTP/1.0")); [reflexivity|].
+  destruct (eqfold v (s2b "HTTP/1.1")); reflexivity.
+Qed.
+
+Definition hdrs_ok (hs : hdrs) : bool := forallb hdr_ok hs && keys_distinct hs.
+
+Lemma hdrs_ok_perm : forall hs hs', Permutation hs hs' -> hdrs_ok hs = true -> hdrs_ok hs' = true.
+Proof.
+  unfold hdrs_ok. intros hs hs' Hp Hok. apply andb_true_iff in Hok as [Hh Hd].
+  apply andb_true_iff. split.
+  - apply forallb_forall. intros x Hx. rewrite forallb_forall in Hh. apply Hh.
+    eapply Permutation_in; [apply Permutation_sym; exact Hp | exact Hx].
+  - apply keys_distinct_NoDup. apply keys_distinct_NoDup in Hd.
+    eapply Permutation_NoDup; [apply Permutation_map; exact Hp | exact Hd].
+Qed.
+
+(* RESPONSE ROUND TRIP.  The bundled client parses the response with the REQUEST parser: the
+   server's version string comes back as method_raw, the status code as the decimal string in
+   the uri position ([dval] reads it back), the reason phrase as version_raw, and the header map
+   and the body unchanged -- for every status code that has a reason phrase (100..511 of
+   define_status.go), every header map in the grammar and EVERY body. *)
+Lemma response_roundtrip : forall vraw st hs eb,
+  uri_ok vraw = true -> status_text st <> [] -> hdrs_ok hs = true ->
+  let c := fst (client_parse (build_response vraw st hs eb)) in
+  c = mkReq vraw (get_method vraw) (itoa st) (status_text st) HTTP_VERSION_UNKNOWN hs eb
+  /\ dval (uri c) = st.
+Proof.
+  intros vraw st hs eb Hv Hst Hok. destruct (status_text_known st Hst) as (Hrange & Hp).
+  assert (Hb : 0 <= st < 10 ^ 20) by lia.
+  unfold phrase_ok in Hp. apply andb_true_iff in Hp as [Hp H11]. apply andb_true_iff in Hp as [Hp H10].
+  apply andb_true_iff in Hp as [Hne Hcr]. apply negb_true_iff in H11, H10, Hne, Hcr.
+  unfold hdrs_ok in Hok. apply andb_true_iff in Hok as [Hh Hd].
+  cbv zeta. unfold client_parse, parse, build_response.
+  rewrite (parse_with_line_gen header_loop vraw (itoa st) (status_text st) _ 200
+             (uri_ok_nonempty _ Hv) (uri_ok_sp _ Hv) (itoa_uri_ok st Hb) Hne Hcr).
+  cbv zeta. rewrite H10, H11.
+  rewrite header_loop_block; [| exact Hh | rewrite app_length; pose proof (header_block_length hs); lia].
+  rewrite (set_headers_distinct hs Hd). cbn [fst uri]. split; [reflexivity|].
+  now destruct (itoa_facts st Hb) as (_ & _ & ->).
+Qed.
+
+(* a status code WITHOUT a reason phrase loses the body: the parser stops at the empty third word *)
+Lemma response_unknown_code_refuted :
+  body (fst (client_parse (build_response HTTP11 299 [] (s2b "hello")))) = [].
+Proof. reflexivity. Qed.
+
+(* ------------------------------------------------------------------ one whole exchange *)
+Definition server_headers : hdrs :=
+  [(s2b "Server", s2b "github.com/brewlin/net-protocol/1.00"); (s2b "Connection", s2b "close")].
+
+Lemma response_parts_200 : forall eb,
+  response_parts 200 eb = (server_headers, if isnil eb then default_success_msg else eb).
+Proof. reflexivity. Qed.
+
+(* EXCHANGE.  Client request in G (headers emitted in any order hs'), route table built by
+   HandleFunc with [u] registered for entry [a]: the handler invoked is [a], it sees exactly the
+   request that was sent, and -- the response headers written in any order -- the client reads
+   status "200" and the body the handler passed to End (the default SUCCESS page if that was
+   empty).  NOTE what this also says: whatever codes the handler passed to Response.Error, the
+   status stays 200 (known finding C20-error-noop, [handler_status_refuted]). *)
+Lemma http_exchange : forall {A} (run : A -> request -> hresult) (m : mux A) meth u hs b hs' a,
+  Gb meth u hs = true -> Permutation hs hs' -> built m -> In (u, a) m ->
+  let req := mkReq meth (get_method meth) u HTTP11 HTTP_VERSION_11 hs' b in
+  let sv := serve run m (send meth u hs' b) in
+  sv_invoked sv = Some a /\ sv_request sv = req /\ sv_status sv = 200
+  /\ forall order, Permutation (sv_headers sv) order ->
+       let c := fst (client_parse (served_bytes sv order)) in
+       dval (uri c) = 200 /\ uri c = s2b "200" /\ version_raw c = s2b "OK" /\ method_raw c = HTTP11
+       /\ body c = (if isnil (h_body (run a req)) then default_success_msg else h_body (run a req))
+       /\ forall k, hlookup k (headers c) = hlookup k server_headers.
+Proof.
+  intros A run m meth u hs b hs' a HG Hp Hb Hin. cbv zeta. unfold serve.
+  rewrite (parse_send meth u hs' b (Gb_perm _ _ _ _ Hp HG)).
+  set (req := mkReq meth (get_method meth) u HTTP11 HTTP_VERSION_11 hs' b).
+  destruct (dispatch_exact run m req 200 Hb) as (Hd & _ & _).
+  rewrite (Hd a Hin). rewrite set_status_fold_nonzero by lia.
+  rewrite response_parts_200. cbn [sv_invoked sv_request sv_status sv_headers sv_body].
+  split; [reflexivity|]. split; [reflexivity|]. split; [reflexivity|].
+  intros order Hord. unfold served_bytes. cbn [sv_request sv_status sv_body version_raw].
+  subst req. cbn [version_raw].
+  assert (Hok : hdrs_ok order = true) by (apply (hdrs_ok_perm server_headers order Hord); reflexivity).
+  destruct (response_roundtrip HTTP11 200 order
+              (if isnil (h_body (run a (mkReq meth (get_method meth) u HTTP11 HTTP_VERSION_11 hs' b)))
+               then default_success_msg
+               else h_body (run a (mkReq meth (get_method meth) u HTTP11 HTTP_VERSION_11 hs' b)))
+              eq_refl ltac:(discriminate) Hok) as (Hc & Hv).
+  cbv zeta in Hc, Hv. rewrite Hc in *. cbn [uri version_raw method_raw body headers] in *.
+  split; [exact Hv|]. split; [reflexivity|]. split; [reflexivity|]. split; [reflexivity|].
+  split; [reflexivity|].
+  intros k. apply hlookup_perm; [|exact Hord].
+  apply keys_distinct_NoDup. reflexivity.
+Qed.
+
+(* a path nobody registered never invokes a handler; the server answers 200 with the default
+   page, because dispatch's set_status_code(400) is a no-op on status 200 *)
+Lemma http_unregistered : forall {A} (run : A -> request -> hresult) (m : mux A) meth u hs b,
+  Gb meth u hs = true -> built m -> (forall a, ~ In (u, a) m) ->
+  let sv := serve run m (send meth u hs b) in
+  sv_invoked sv = None /\ sv_status sv = 200 /\ sv_body sv = default_success_msg.
+Proof.
+  intros A run m meth u hs b HG Hb Hnone. cbv zeta. unfold serve. rewrite (parse_send meth u hs b HG).
+  destruct (dispatch_exact run m (mkReq meth (get_method meth) u HTTP11 HTTP_VERSION_11 hs b) 200 Hb)
+    as (_ & Hd & _).
+  rewrite (Hd Hnone). now cbn.
+Qed.
+
+(* KNOWN FINDING C20-error-noop.  "The client receives the status the handler produced" is false
+   for a handler that calls w.Error(404): NewCon sets status_code = 200 and set_status_code only
+   assigns when status_code == 0, so the client still reads 200.  (Making set_status_code
+   effective would turn every POST/PUT into 501, because parse marks them not-supported -- only
+   the no-op lets them through.) *)
+Lemma handler_status_refuted :
+  exists (run : unit -> request -> hresult) m raw,
+    built m /\ h_errors (run tt (fst (parse 200 raw))) = [404]
+    /\ sv_invoked (serve run m raw) = Some tt
+    /\ sv_status (serve run m raw) = 200
+    /\ uri (fst (client_parse (served_bytes (serve run m raw) (sv_headers (serve run m raw))))) = s2b "200".
+Proof.
+  exists (fun _ _ => mkHR (s2b "not here") [404]), [(s2b "/x", tt)], (send (s2b "GET") (s2b "/x") [] []).
+  split; [apply (built_add [] (s2b "/x") tt); [constructor | reflexivity]|].
+  repeat split; reflexivity.
+Qed.
